@@ -18,6 +18,19 @@ theorem C09_inv_step (V : NoHang.Variant) (st st' : NoHang.St) (a : NoHang.Act) 
     (hI : NoHang.Inv V st) (h : NoHang.step V st a = some (st', o)) : NoHang.Inv V st' :=
   NoHang.inv_step V st st' a o hI h
 
+/-- **C09_code_variant** — the source as it is now is the variant `C09_no_hang` is about: the sender's own copy of the dedicated
+receive end is released right after the first fragment went out (regenerated from `OsIpcSender::send`). -/
+theorem C09_code_variant : NoHang.codeVariant.keepOwnRef = false := by decide
+
+/-- … hence no hang for the code variant -/
+theorem C09_no_hang_code (st : NoHang.St) (hI : NoHang.Inv NoHang.codeVariant st) (hgone : st.receiverExists = false) :
+    ∃ st' o, NoHang.step NoHang.codeVariant st .sendStep = some (st', o) := by
+  have h : NoHang.codeVariant = ⟨false⟩ := by
+    cases hv : NoHang.codeVariant with
+    | mk k => have := C09_code_variant; rw [hv] at this; simp at this; rw [this]
+  rw [h] at hI ⊢
+  exact NoHang.no_hang st hI hgone
+
 /-- sensitivity (the pre-fix code, D11): a reachable state in which nothing is enabled — the sender blocked forever -/
 example : NoHang.Inv ⟨true⟩ NoHang.stuck ∧ NoHang.step ⟨true⟩ NoHang.stuck .sendStep = none := by
   constructor
